@@ -127,3 +127,78 @@ package keepclient
 //@   at loop 1 back: assert !(len(h0) == 7 || len(h0) == 29) || h0[0:2] != "K@" ==> len(found) == len0
 //@   calls NewRootSorter#1: requires $1 == locator[0:32] && $0 == kc.localRoots
 //@   calls append#3: requires $0 == found
+
+// ------------------------------------------------------- C03: verified reads
+//@ iface io.Reader.Read
+//@   modifies mem:byte
+//@   ensures 0 <= result0 && result0 <= len(p)
+
+// Read: io.EOF is passed on only if the digest of everything read matches
+// Check; the bytes handed to the hash are exactly p[:n].
+//@ func HashCheckingReader.Read property C03
+//@   ensures err == io.EOF ==> hashsumhex(hcr.Hash) == hcr.Check
+//@   ensures n > 0 ==> written(hcr.Hash) == old(written(hcr.Hash)) + string(p[0:n])
+//@   ensures n <= 0 ==> written(hcr.Hash) == old(written(hcr.Hash))
+//@   ensures 0 <= n && n <= len(p)
+
+//@ func HashCheckingReader.WriteTo property C03
+//@   ensures err == nil ==> hashsumhex(hcr.Hash) == hcr.Check
+
+//@ func HashCheckingReader.Close property C03
+//@   ghost cperr error = nil
+//@   ghost clerr error = nil
+//@   calls io.Copy#1: requires $0 == hcr.Hash && $1 == hcr.Reader
+//@   calls io.Copy#1: set cperr = $r1
+//@   calls Closer.Close#1: set clerr = $r
+//@   ensures err == nil ==> hashsumhex(hcr.Hash) == hcr.Check && cperr == nil && clerr == nil
+
+// getOrHead: a reader is returned only for a 200 answer, wrapped in a
+// HashCheckingReader over a fresh MD5 that checks locator[0:32]; the size
+// returned agrees with the size hint and with Content-Length.
+//@ func KeepClient.getOrHead property C03 safety -bounds
+//@   requires len(locator) >= 32
+//@   ghost e0 int64 = 0
+//@   at assign triesRemaining#1: set e0 = expectLength
+//@   loop 1: invariant expectLength == e0
+//@   loop 2: invariant expectLength == e0
+//@   loop 3: invariant expectLength == e0
+//@   ensures result4 == nil && !strings.HasPrefix(locator, "d41d8cd98f00b204e9800998ecf8427e+0") ==> resp.StatusCode == 200 && (resp.ContentLength >= 0 ==> result1 == resp.ContentLength) && (e0 >= 0 ==> result1 == e0)
+//@   ensures result4 == nil && method == "GET" && !strings.HasPrefix(locator, "d41d8cd98f00b204e9800998ecf8427e+0") ==> istype(result0, HashCheckingReader) && unbox(result0, HashCheckingReader).Check == locator[0:32] && unbox(result0, HashCheckingReader).Reader == resp.Body && hashalg(unbox(result0, HashCheckingReader).Hash) == 1 && written(unbox(result0, HashCheckingReader).Hash) == ""
+//@   ensures !strings.HasPrefix(locator, "d41d8cd98f00b204e9800998ecf8427e+0") && splitcount(locator, "+") >= 2 && parseok(splitpart(locator, "+", 1), 10) ==> e0 == parseint(splitpart(locator, "+", 1), 10)
+
+//@ func KeepClient.Get property C03
+//@   requires len(locator) >= 32
+//@   calls KeepClient.getOrHead#1: requires $0 == "GET" && $1 == locator
+
+// The fetch goroutine of BlockCache.Get, verified as a sequential function:
+// the entry's error is nil only if the fetch, the full read and the verifying
+// Close all succeeded; a wrongly sized answer must end in an error, not in a
+// panic (obligation makeslice#1).
+//@ func BlockCache.Get$1 property C03
+//@   requires len(locator) >= 32
+//@   ghost gerr error = nil
+//@   ghost rferr error = nil
+//@   ghost clerr error = nil
+//@   ghost dlen int64 = 0
+//@   calls KeepClient.Get#1: requires $0 == locator
+//@   calls KeepClient.Get#1: set gerr = $r3
+//@   calls KeepClient.Get#1: set dlen = $r1
+//@   calls io.ReadFull#1: set rferr = $r1
+//@   calls ReadCloser.Close#1: set clerr = $r
+//@   ensures b.err == nil ==> gerr == nil && rferr == nil && clerr == nil && int64(len(b.data)) == dlen
+
+// Get: an existing cache entry is used only if it was found and holds no
+// error; otherwise a fresh entry replaces it (a failed fetch is never served).
+//@ func BlockCache.Get property C03 safety -bounds
+//@   ghost fresh bool = false
+//@   ghost ok0 bool = false
+//@   ghost e1 bool = false
+//@   at assign ok#1: set ok0 = ok
+//@   at assign ok#1: set e1 = (b.err == nil)
+//@   at assign b#2: set fresh = true
+//@   calls sync.Mutex.Unlock#1: requires fresh || (ok0 && e1)
+//@   ensures result1 == nil && !fresh ==> ok0 && e1
+
+//@ func BlockCache.ReadAt property C03
+//@   requires off >= 0 && len(locator) >= 32
+//@   ensures result1 == nil ==> 0 <= result0 && result0 <= len(p)
